@@ -176,7 +176,7 @@ pub fn plan(property: &str, tier: Tier) -> Option<Plan> {
                 jobs.push(g("c01/grammar3-maps", "rel", 5).armed(&a));
                 jobs.push(g("c01/grammar3-binds", "rel", 5).armed(&a));
             }
-            ("model_checking", mc_rule, vec!["value domain {0,1,2}", "programs of <= 9 nodes", "<= 2 simultaneous observers", "node functions pure, cutoffs equality-like (the property's proviso)"], if q { 60 } else { 1500 })
+            ("model_checking", mc_rule, vec!["value domain {0,1,2}", "programs of <= 9 nodes", "<= 2 simultaneous observers", "node functions pure, cutoffs equality-like (the property's proviso)"], if q { 60 } else { 900 })
         }
         "C02" => {
             let a = ["C02"];
@@ -196,7 +196,7 @@ pub fn plan(property: &str, tier: Tier) -> Option<Plan> {
             jobs.push(g("shapes/diamond", "rel", if q { 6 } else { 9 }).armed(&a));
             jobs.push(g("shapes/diamond", "dbg", if q { 5 } else { 8 }).armed(&a));
             jobs.push(g("c01/catalogue", "dbg", if q { 5 } else { 7 }).armed(&a));
-            ("model_checking", mc_rule, vec!["value domain {0,1,2}", "programs of <= 11 nodes", "internal recompute schedules reached through observe / un-observe orders of <= 2-3 observers"], if q { 60 } else { 1500 })
+            ("model_checking", mc_rule, vec!["value domain {0,1,2}", "programs of <= 11 nodes", "internal recompute schedules reached through observe / un-observe orders of <= 2-3 observers"], if q { 60 } else { 900 })
         }
         "C03" => {
             let a = ["C03"];
@@ -211,7 +211,7 @@ pub fn plan(property: &str, tier: Tier) -> Option<Plan> {
             jobs.push(g("c01/catalogue", "rel", if q { 6 } else { 8 }).armed(&a));
             jobs.push(g(if q { "c01/grammar2-repr" } else { "c01/grammar2" }, "rel", if q { 5 } else { 6 }).armed(&a));
             jobs.push(g("c03/stale_rhs", "dbg", if q { 5 } else { 8 }).armed(&a));
-            ("model_checking", mc_rule, vec!["inner nodes are observed only while their defining bind is observed (DESIGN §8)", "value domain {0,1,2}", "bind nesting depth <= 2"], if q { 60 } else { 1500 })
+            ("model_checking", mc_rule, vec!["inner nodes are observed only while their defining bind is observed (DESIGN §8)", "value domain {0,1,2}", "bind nesting depth <= 2"], if q { 60 } else { 900 })
         }
         "C04" => {
             let a = ["C04"];
@@ -238,7 +238,7 @@ pub fn plan(property: &str, tier: Tier) -> Option<Plan> {
                 jobs.push(g("c09/self_disallow", prof, if q { 5 } else { 8 }).armed(&a));
                 jobs.push(g("c05/stale", prof, if q { 7 } else { 9 }).armed(&a));
             }
-            ("model_checking", mc_rule, vec!["only well-formed histories are generated (no nested stabilise, no cycles, default height limit, one state, closures own no observers)", "both debug-assertion configurations, same bounds"], if q { 60 } else { 1500 })
+            ("model_checking", mc_rule, vec!["only well-formed histories are generated (no nested stabilise, no cycles, default height limit, one state, closures own no observers)", "both debug-assertion configurations, same bounds"], if q { 60 } else { 900 })
         }
         "C05" => {
             let a = ["C05"];
@@ -258,7 +258,7 @@ pub fn plan(property: &str, tier: Tier) -> Option<Plan> {
             jobs.push(g("c05/stale", "rel", if q { 8 } else { 10 }).armed(&a));
             jobs.push(g("c05/stale", "dbg", if q { 7 } else { 9 }).armed(&a));
             jobs.push(g("c05/clones", "dbg", if q { 5 } else { 7 }).armed(&a));
-            ("model_checking", mc_rule, vec!["dependency cone computed syntactically by the harness from the program and the reference's current bind right-hand sides"], if q { 60 } else { 1500 })
+            ("model_checking", mc_rule, vec!["dependency cone computed syntactically by the harness from the program and the reference's current bind right-hand sides"], if q { 60 } else { 900 })
         }
         "C06" => {
             let a = ["C06"];
@@ -272,7 +272,7 @@ pub fn plan(property: &str, tier: Tier) -> Option<Plan> {
             // handlers: its needed readers must re-run at the next stabilise whatever was written (vars world)
             jobs.push(JobDef::new("vars", "c08/never", "rel", if q { 7 } else { 9 }).armed(&a));
             jobs.push(JobDef::new("vars", "c08/never", "dbg", if q { 6 } else { 8 }).armed(&a));
-            ("model_checking", mc_rule, vec!["expert nodes excluded (as the property states)", "depend_on and map_ref-over-map_with_old outputs are not judged for exact re-invocation (DESIGN §6 C06)"], if q { 60 } else { 1500 })
+            ("model_checking", mc_rule, vec!["expert nodes excluded (as the property states)", "depend_on and map_ref-over-map_with_old outputs are not judged for exact re-invocation (DESIGN §6 C06)"], if q { 60 } else { 900 })
         }
         "C07" => {
             let a = ["C07"];
@@ -290,7 +290,7 @@ pub fn plan(property: &str, tier: Tier) -> Option<Plan> {
             jobs.push(g("shapes/xp", "rel", if q { 7 } else { 9 }).armed(&a));
             jobs.push(g("shapes/xp-writes", "rel", if q { 7 } else { 9 }).armed(&a));
             jobs.push(g("shapes/xp-writes", "dbg", if q { 6 } else { 8 }).armed(&a));
-            ("model_checking", mc_rule, vec!["reads are issued after every action on every handle, and from inside every node function / handler in family c07/reads"], if q { 60 } else { 1500 })
+            ("model_checking", mc_rule, vec!["reads are issued after every action on every handle, and from inside every node function / handler in family c07/reads"], if q { 60 } else { 900 })
         }
         "C09" => {
             let a = ["C09"];
@@ -314,7 +314,7 @@ pub fn plan(property: &str, tier: Tier) -> Option<Plan> {
             let mut j = g("c09/subs", "dbg", if q { 5 } else { 7 }).armed(&a);
             j.split_first = true;
             jobs.push(j);
-            ("model_checking", mc_rule, vec!["<= 2 observers (+1 pinned), <= 2 subscriptions", "both handler iteration orders (hook H2)"], if q { 60 } else { 1500 })
+            ("model_checking", mc_rule, vec!["<= 2 observers (+1 pinned), <= 2 subscriptions", "both handler iteration orders (hook H2)"], if q { 60 } else { 900 })
         }
         "C10" => {
             let a = ["C10"];
@@ -332,7 +332,7 @@ pub fn plan(property: &str, tier: Tier) -> Option<Plan> {
             let mut j = g("c09/subs", "dbg", if q { 5 } else { 7 }).armed(&a);
             j.split_first = true;
             jobs.push(j);
-            ("model_checking", mc_rule, vec!["<= 2 observers (+1 pinned) with <= 2 handles each, <= 2 subscriptions"], if q { 60 } else { 1500 })
+            ("model_checking", mc_rule, vec!["<= 2 observers (+1 pinned) with <= 2 handles each, <= 2 subscriptions"], if q { 60 } else { 900 })
         }
         "C11" => {
             let a = ["C11"];
@@ -364,7 +364,7 @@ pub fn plan(property: &str, tier: Tier) -> Option<Plan> {
             jobs.push(JobDef::new("pkmaps", "c16/all-k2", "rel", if q { 4 } else { 6 }).armed(&a));
             jobs.push(JobDef::new("maps", "c15/core", "rel", if q { 4 } else { 6 }).armed(&a));
             jobs.push(JobDef::new("vars", "c08/dropped", "rel", if q { 5 } else { 7 }).armed(&a));
-            ("model_checking", mc_rule, vec!["audit = hook H1 verif_audit (port of the upstream invariant walkers), run after every single action", "only rules restating a clause of the property decide (DESIGN Appendix B)"], if q { 60 } else { 1500 })
+            ("model_checking", mc_rule, vec!["audit = hook H1 verif_audit (port of the upstream invariant walkers), run after every single action", "only rules restating a clause of the property decide (DESIGN Appendix B)"], if q { 60 } else { 900 })
         }
         "C08" => {
             let a = ["C08"];
@@ -398,7 +398,7 @@ pub fn plan(property: &str, tier: Tier) -> Option<Plan> {
                 jobs.push(w("c08/selffeed", "dbg", 6));
                 jobs.push(w("c08/dropped", "dbg", 7));
             }
-            ("model_checking", "every write script (all sequences of <= 3 of the five write operations; thorough: <= 4) issued from a node function, a bind closure, an update handler or outside, on observed and unobserved variables, combined with every history of {trigger, outside write, observe readers, flip, stabilise, stabilise-until-stable} up to the depth bound; states merged on engine dump + variable model", vec!["variable type i32, constants {5,6}", "get/replace return values inside node functions are not judged (the property makes no claim)"], if q { 60 } else { 1500 })
+            ("model_checking", "every write script (all sequences of <= 3 of the five write operations; thorough: <= 4) issued from a node function, a bind closure, an update handler or outside, on observed and unobserved variables, combined with every history of {trigger, outside write, observe readers, flip, stabilise, stabilise-until-stable} up to the depth bound; states merged on engine dump + variable model", vec!["variable type i32, constants {5,6}", "get/replace return values inside node functions are not judged (the property makes no claim)"], if q { 60 } else { 900 })
         }
         "C12" => {
             let a = ["C12"];
@@ -417,7 +417,7 @@ pub fn plan(property: &str, tier: Tier) -> Option<Plan> {
                 j.max_states = 20_000_000;
                 jobs.push(j);
             }
-            ("model_checking", "18 graph shapes x 3 initial conditions: ALL permutations of dropping the user handles and the state, with a stabilise inserted or not after each drop (unpruned enumeration, E1); leak oracles at the two moments the property names", vec!["<= 5 droppable handles per shape (thorough: 6-7)", "leaks are detected through drop flags in closures, a counted value type and WeakIncr::strong_count"], if q { 60 } else { 1500 })
+            ("model_checking", "20 graph shapes x 3 initial conditions: ALL permutations of dropping the user handles and the state, with a stabilise inserted or not after each drop (unpruned enumeration, E1); leak oracles at the two moments the property names", vec!["<= 5 droppable handles per shape (thorough: 6-7)", "leaks are detected through drop flags in closures, a counted value type and WeakIncr::strong_count"], if q { 60 } else { 900 })
         }
         "C15" | "C17" => {
             let me: &'static str = if property == "C15" { "C15" } else { "C17" };
@@ -470,7 +470,7 @@ pub fn plan(property: &str, tier: Tier) -> Option<Plan> {
                     jobs.push(pk("c16/all-k3", "rel", 5));
                 }
             }
-            ("model_checking", "every operator x map type: (a) all histories of {set input to any of the 3^K maps, toggle observer, stabilise} to the depth bound, pruned on engine dump + model; (b) unpruned round-structured histories (each round: optional observer toggle, every input set to any map, stabilise) so that state hidden in operator closures cannot be merged away", vec!["keys 0..K (K=3; merge K=2), values {1,2}", "reference = plain BTreeMap computations (R5)"], if q { 60 } else { 1500 })
+            ("model_checking", "every operator x map type: (a) all histories of {set input to any of the 3^K maps, toggle observer, stabilise} to the depth bound, pruned on engine dump + model; (b) unpruned round-structured histories (each round: optional observer toggle, every input set to any map, stabilise) so that state hidden in operator closures cannot be merged away", vec!["keys 0..K (K=3; merge K=2), values {1,2}", "reference = plain BTreeMap computations (R5)"], if q { 60 } else { 900 })
         }
         "C14" => {
             let a = ["C14"];
@@ -498,7 +498,7 @@ pub fn plan(property: &str, tier: Tier) -> Option<Plan> {
                 jobs.push(w("join", "dbg", 10));
                 jobs.push(w("bind", "dbg", 10));
             }
-            ("model_checking", "expert-API constructions built in the harness (join, bind, dynamic sum with duplicate dependencies and invalidatable children): all histories of {set selector / multiplicities, set inner vars, toggle the regular bind, observe / un-observe the node and its dependant, make_stale, invalidate, stabilise} to the depth bound; states merged on engine dump + per-edge slots + model (congruence self-check)", vec!["expert nodes are mutated only from the function of one of their children (the documented rule)", "extra edge callbacks are not judged, only missing / stale ones"], if q { 60 } else { 1500 })
+            ("model_checking", "expert-API constructions built in the harness (join, bind, dynamic sum with duplicate dependencies and invalidatable children): all histories of {set selector / multiplicities, set inner vars, toggle the regular bind, observe / un-observe the node and its dependant, make_stale, invalidate, stabilise} to the depth bound; states merged on engine dump + per-edge slots + model (congruence self-check)", vec!["expert nodes are mutated only from the function of one of their children (the documented rule)", "extra edge callbacks are not judged, only missing / stale ones"], if q { 60 } else { 900 })
         }
         "C16" => {
             let a = ["C16"];
@@ -521,7 +521,7 @@ pub fn plan(property: &str, tier: Tier) -> Option<Plan> {
                 jobs.push(pk("c16/shared-pinned-k1", "rel", 10));
                 jobs.push(pk("c16/shared-pinned-k2", "rel", 8));
             }
-            ("model_checking", "incr_mapi_ / incr_filter_mapi_ / _cutoff variants on BTreeMap and OrdMap x 9 per-key user-function variants (pure map, identity, map2 with an outer var, bind on the value choosing existing / building fresh nodes, functions ignoring their input, one shared node for all keys): all histories of {set map to any of the 3^K maps, set outer var, toggle observer, stabilise} to the depth bound; states merged on engine dump + model + key->node table (validated by the congruence self-check and against an unpruned run)", vec!["K=2 (9 maps) and K=3 (27 maps), values {1,2}, outer var in {0,1,2}"], if q { 60 } else { 1500 })
+            ("model_checking", "incr_mapi_ / incr_filter_mapi_ / _cutoff variants on BTreeMap and OrdMap x 9 per-key user-function variants (pure map, identity, map2 with an outer var, bind on the value choosing existing / building fresh nodes, functions ignoring their input, one shared node for all keys): all histories of {set map to any of the 3^K maps, set outer var, toggle observer, stabilise} to the depth bound; states merged on engine dump + model + key->node table (validated by the congruence self-check and against an unpruned run)", vec!["K=2 (9 maps) and K=3 (27 maps), values {1,2}, outer var in {0,1,2}"], if q { 60 } else { 900 })
         }
         "C18" => {
             let a = ["C18"];
@@ -536,7 +536,7 @@ pub fn plan(property: &str, tier: Tier) -> Option<Plan> {
             jobs.push(w("c18/big-om", "rel", n_big));
             jobs.push(w("c18/pairs-bt", "dbg", if q { 4 } else { 6 }));
             jobs.push(w("c18/pairs-om", "dbg", if q { 4 } else { 6 }));
-            ("exploration", "exhaustive input enumeration (E4): ALL ordered pairs of maps over K keys x 2 values through the public symmetric_fold of each map type (with and without structure sharing), ALL quadruples (old/new left, old/new right) through a real incr_merge graph judged on the merge function's call log, plus a structured enumeration of single-edit pairs on multi-node OrdMaps; a case is one pair/quadruple, distinct_nontrivial counts distinct cases", vec!["the 'randomly over larger ones' clause of the quantifier is not addressed (sampling is a different technique)"], if q { 60 } else { 1500 })
+            ("exploration", "exhaustive input enumeration (E4): ALL ordered pairs of maps over K keys x 2 values through the public symmetric_fold of each map type (with and without structure sharing), ALL quadruples (old/new left, old/new right) through a real incr_merge graph judged on the merge function's call log, plus a structured enumeration of single-edit pairs on multi-node OrdMaps; a case is one pair/quadruple, distinct_nontrivial counts distinct cases", vec!["the 'randomly over larger ones' clause of the quantifier is not addressed (sampling is a different technique)"], if q { 60 } else { 900 })
         }
         "C19" => {
             let a = ["C19"];
@@ -550,7 +550,7 @@ pub fn plan(property: &str, tier: Tier) -> Option<Plan> {
                 jobs.push(w("misuse/cross", prof, if q { 5 } else { 6 }));
                 jobs.push(w("misuse/nested", prof, if q { 5 } else { 6 }));
             }
-            ("model_checking", "limited state vs. an unlimited twin (the needed height is read from the twin through hook H1, no height convention baked in): N in 1..6 (thorough 10), set_max_height_allowed(M) with M in 1..8 (12) at every quiescent point of build / observe / stabilise / grow / shrink histories over map chains and bind nests whose heights land around N; all grammar-enumerated programs of <= 4 nodes closing a cycle through 1-2 binds, returning a foreign-state node, or calling stabilise from a node function / update handler; drop of all handles in 4 orders after every expected panic; both debug-assertion configurations", vec!["a height above the limit that is needed only transiently within one stabilise is unjudged", "shrinking below a height that was seen but is no longer in use is unjudged", "hangs / stack overflows are attributed by the supervisor's watchdog and marker file"], if q { 60 } else { 1500 })
+            ("model_checking", "limited state vs. an unlimited twin (the needed height is read from the twin through hook H1, no height convention baked in): N in 1..6 (thorough 10), set_max_height_allowed(M) with M in 1..8 (12) at every quiescent point of build / observe / stabilise / grow / shrink histories over map chains and bind nests whose heights land around N; all grammar-enumerated programs of <= 4 nodes closing a cycle through 1-2 binds, returning a foreign-state node, or calling stabilise from a node function / update handler; drop of all handles in 4 orders after every expected panic; both debug-assertion configurations", vec!["a height above the limit that is needed only transiently within one stabilise is unjudged", "shrinking below a height that was seen but is no longer in use is unjudged", "hangs / stack overflows are attributed by the supervisor's watchdog and marker file"], if q { 60 } else { 900 })
         }
         "C20" => {
             let a = ["C20"];
@@ -567,7 +567,7 @@ pub fn plan(property: &str, tier: Tier) -> Option<Plan> {
                 jobs.push(w("memo/nested", prof, d(7, 8)));
                 jobs.push(w("memo/nested+bind", prof, d(6, 7)));
             }
-            ("model_checking", "weak_memoize_fn called at top level and from inside (nested) bind closures: all histories of {call memo(k) at top level, set bind vars (re-running closures that call memo), set the base var, observe / drop returned nodes, drop observers, drop binds, stabilise}, k in {0,1}, to the depth bound; states merged on engine dump + the harness's mirror of the memo table", vec!["'same node' is judged only when the harness itself still holds the previous result; 'function invoked again' only when nothing can reference the key during one complete stabilise; other calls are unjudged and the model follows the engine"], if q { 60 } else { 1500 })
+            ("model_checking", "weak_memoize_fn called at top level and from inside (nested) bind closures: all histories of {call memo(k) at top level, set bind vars (re-running closures that call memo), set the base var, observe / drop returned nodes, drop observers, drop binds, stabilise}, k in {0,1}, to the depth bound; states merged on engine dump + the harness's mirror of the memo table", vec!["'same node' is judged only when the harness itself still holds the previous result; 'function invoked again' only when nothing can reference the key during one complete stabilise; other calls are unjudged and the model follows the engine"], if q { 60 } else { 900 })
         }
         "C13" => {
             let a = ["C13"];
@@ -577,7 +577,7 @@ pub fn plan(property: &str, tier: Tier) -> Option<Plan> {
                 "fault_enumeration",
                 "every history explored by the digest-pruned BFS that ends in stabilise is re-executed once per user-closure invocation (node function, bind closure, cutoff function, update handler) of that stabilise with a panic injected exactly there, in two drop orders; a case = (history, crash point); distinct_nontrivial counts the distinct (history, crash point) pairs in which the injected panic really fired",
                 vec!["crash points are invocations of instrumented user closures only (allocation failure etc. not modelled)", "post-panic script: reads, writes, new observer, further stabilise, drop of everything in two orders"],
-                if q { 60 } else { 1500 },
+                if q { 60 } else { 900 },
             )
         }
         _ => return None,
